@@ -160,7 +160,7 @@ func (g *gen) term(pool []string, refs bool) string {
 
 func (g *gen) term0(pool []string, refs bool) string {
 	if refs && g.rng.Intn(6) == 0 {
-		names := []string{"a", "b", "x-1", "A", "MIT", "1.0", "AND", "OR", "WITH", "a", "b"}
+		names := []string{"a", "b", "x-1", "A", "MIT", "1.0", "AND", "OR", "WITH", "a", "b", "bsd.or.mit", "a.and", "x.with.y", "or", "and.b"}
 		s := "LicenseRef-" + g.pick(names)
 		if g.rng.Intn(3) == 0 {
 			s = "DocumentRef-" + g.pick(names) + ":" + s
@@ -1098,6 +1098,24 @@ func (g *gen) sessionEvents(n int, reverse bool) []Event {
 			a + " AND " + a + " WITH " + exc, "(" + a + " OR " + b + ") AND " + other, strings.TrimSuffix(a, "-or-later") + "-or-later AND " + other + "-or-later"}
 		for _, c := range comp {
 			texts = append(texts, c, g.wsVariant(c))
+		}
+		// the whole text in another letter case: operators and Ref prefixes are case-sensitive, ids are not - a cache keyed by
+		// a case-folded (or blank-normalised) text confuses a valid spelling with an invalid one
+		for _, c := range []string{comp[0], comp[1], comp[4], other + " OR LicenseRef-" + a, "DocumentRef-" + a + ":LicenseRef-" + b} {
+			texts = append(texts, c, strings.ToLower(c), strings.ToUpper(c))
+		}
+		// a list and its elements glued into ONE string by the separators a cache key might be built with
+		for _, sep := range []string{",", " ", "\x00", "\n", "|", ";", ":", ", "} {
+			x, y := g.pick(ids), other
+			split, glued := []string{x, y}, []string{x + sep + y}
+			order := [][]string{glued, split, glued}
+			if g.rng.Intn(2) == 0 {
+				order = [][]string{split, glued, split}
+			}
+			for _, l := range order {
+				evs = append(evs, eventOf(obsSatisfies(x, l), x, l))
+				evs = append(evs, eventOf(obsValidate(l), "", l))
+			}
 		}
 		for k := 0; k < 24; k++ {
 			e := g.pick(texts)
